@@ -1,5 +1,6 @@
 """C09: a learned candidate choice is remembered, also after a restart."""
 import obl_assembly as A
+import obl_phonetic
 
 
 def run(c):
@@ -8,5 +9,8 @@ def run(c):
     A.validate_assembly_concrete(c)     # a mismatch makes the run inconclusive; the obligations still run, and what they find is reported only after native confirmation
     ct = A.conv_table_for([p for w in A.WRAPPERS_QUICK for p in w])
     A.obl_learn(c, ct, thorough=(c.tier == "thorough"), budget_s=2400)
+    # method level: the commit compares the index with the preselection the method recorded (must be the assembly's answer for the list
+    # shown last), stores on a different index, writes nothing on the same one
+    obl_phonetic.obl_phonetic_glue(c, 2 if c.tier == "quick" else 3, budget_s=900)
     c.outside("persistence across processes: the store written by serde_json::to_string is assumed to be read back unchanged by from_slice "
               "(contract of serde_json and the file system); every restart point between two commits")
